@@ -13,6 +13,9 @@ rm -f flac.c slim.c zzip.c zzslim.c debug.c legacy.c
 sed -i 's|^#define USE_MODULES.*|/* USE_MODULES removed by verif */|' gd_config.h
 CF="-O1 -g -ffp-contract=off -DHAVE_CONFIG_H -DGETDATA_VERIF -I. -w"
 if [ "$MODE" = "asan" ]; then CF="$CF -fsanitize=address,undefined -fno-sanitize-recover=undefined -fno-omit-frame-pointer"; fi
+# asanmem: ASan + the UBSan checks that are memory-safety/crash relevant (C05): arithmetic UB
+# (signed overflow, shifts, float casts), memcpy(NULL,0) and misalignment are not in the property
+if [ "$MODE" = "asanmem" ]; then CF="$CF -fsanitize=address,undefined -fno-sanitize=signed-integer-overflow,shift,float-cast-overflow,nonnull-attribute,alignment,float-divide-by-zero -fno-sanitize-recover=undefined -fno-omit-frame-pointer"; fi
 CF="$CF $*"
 echo "$CF" > "$OUT/cflags"
 ls *.c | xargs -P 16 -I{} sh -c "gcc $CF -c {} -o {}.o" 
